@@ -31,7 +31,12 @@ type colDesc struct {
 }
 
 func buildTemplate(cols []colDesc) jsonline.Template {
-	t := jsonline.NewTemplate()
+	return declareCols(jsonline.NewTemplate(), cols)
+}
+
+// declareCols declares the columns on a template that exists already (possibly one an importer or an exporter
+// was obtained from before: the builder methods extend the template in place).
+func declareCols(t jsonline.Template, cols []colDesc) jsonline.Template {
 	buildTemplateCount++
 	for i, c := range cols {
 		if c.isSub {
@@ -150,8 +155,28 @@ func lineOutcome(w *recWriter, err error, pan string) string {
 	return fmt.Sprintf("ok %s w=%d", hxs(string(w.all())), len(w.writes))
 }
 
+// runLineD does what jl does for one line under the templates described; one call in five obtains the importer
+// and the exporter from the templates BEFORE the columns are declared (the builder methods extend a template in
+// place, so the handles obtained earlier work with the columns declared later).
+func runLineD(tiD, toD []colDesc, line []byte) (*recWriter, error, string) {
+	runLineDCount++
+	if runLineDCount%5 != 4 {
+		return runLine(buildTemplate(tiD), buildTemplate(toD), line)
+	}
+	return runLineWith(jsonline.NewTemplate(), jsonline.NewTemplate(), line, func(ti, to jsonline.Template) {
+		declareCols(ti, tiD)
+		declareCols(to, toD)
+	})
+}
+
+var runLineDCount int
+
 // runLine does what jl does for one line.
 func runLine(ti, to jsonline.Template, line []byte) (*recWriter, error, string) {
+	return runLineWith(ti, to, line, nil)
+}
+
+func runLineWith(ti, to jsonline.Template, line []byte, late func(ti, to jsonline.Template)) (*recWriter, error, string) {
 	w := &recWriter{failAt: -1}
 	var err error
 	runLineCount++
@@ -167,6 +192,9 @@ func runLine(ti, to jsonline.Template, line []byte) (*recWriter, error, string) 
 			imp, exp = ti.GetImporter(rd), to.GetExporter(w)
 		} else {
 			imp, exp = jsonline.NewImporter(rd).WithTemplate(ti), jsonline.NewExporter(w).WithTemplate(to)
+		}
+		if late != nil {
+			late(ti, to)
 		}
 		var row jsonline.Row
 		if variant&2 == 0 {
@@ -447,7 +475,7 @@ func extForValue(x interface{}, into map[string]string) {
 }
 
 func emitLine(cw *caseWriter, prop string, ti, to []colDesc, line []byte, nontrivial bool) string {
-	w, err, pan := runLine(buildTemplate(ti), buildTemplate(to), line)
+	w, err, pan := runLineD(ti, to, line)
 	ext := map[string]string{}
 	extForJSON(line, ext)
 	out := lineOutcome(w, err, pan)
